@@ -41,6 +41,8 @@ def run(ctx):
     c03.r39(ctx, 'R11.8')
     r119(ctx)
     r1110(ctx)
+    from . import c03 as _c03
+    _c03.r319(ctx, ctx.repo['core'], 'R11.14')
     from . import c02 as _c02
     _c02.r211(ctx, 'R11.13')
     from . import findings2 as _f2
